@@ -48,6 +48,11 @@ StateRemove(d, s, i) ==
             [last |-> WithoutAt(s.last, i), md |-> WithoutAt(s.md, i),
              missing |-> {IF j > i THEN j - 1 ELSE j : j \in s.missing \ {i}}]
       [] OTHER -> s
+\* ... and after every input has been removed (destroy() goes through _remove_upstream for each of them)
+StateClear(d, s) ==
+    CASE prog[d].kind = "zip" -> <<>>
+      [] prog[d].kind = "combine_latest" -> [last |-> <<>>, md |-> <<>>, missing |-> {}]
+      [] OTHER -> s
 \* combine_latest built without emit_on keeps emit_on = all upstreams
 EonAdd(nd) == IF nd.kind = "combine_latest" /\ nd.b2 THEN nd.eon \cup {Len(nd.ups) + 1} ELSE nd.eon
 EonRemove(nd, i) == IF nd.kind = "combine_latest" /\ nd.b2
@@ -84,14 +89,19 @@ Disconnect(u, d) ==
 \* n.destroy(): detach from every upstream; a sink also leaves _global_sinks
 Destroy(n) ==
     /\ edits < MaxEdits /\ n \in held /\ prog[n].ups # <<>>
-    /\ prog[n].kind \in {"sink", "map", "stream", "union"}
-    /\ prog' = [prog EXCEPT ![n].ups = <<>>]
+    /\ prog[n].kind \in {"sink", "map", "stream", "union", "zip", "combine_latest"}
+    /\ prog[n].kind = "combine_latest" => prog[n].b2          \* (an explicit emit_on stream cannot be removed: raises)
+    /\ prog' = [prog EXCEPT ![n].ups = <<>>, ![n].eon = IF prog[n].kind = "combine_latest" THEN {} ELSE @]
+    /\ nst' = [nst EXCEPT ![n] = StateClear(n, @)]
     /\ pinned' = pinned \ {n}
     /\ LET sw == Sweep(held, pinned \ {n}, prog',
                        [u \in DOMAIN downs |-> IF InSeq(prog[n].ups, u) THEN Without(downs[u], n) ELSE downs[u]])
        IN alive' = sw[1] /\ downs' = sw[2]
     /\ edits' = edits + 1 /\ err' = FALSE
-    /\ UNCHANGED <<nst, rc, cbs, dlog, elog, flushes, calls, failed, nfail, held>>
+    /\ UNCHANGED <<rc, cbs, dlog, elog, flushes, calls, failed, nfail, held>>
+
+\* d.destroy(streams=[u]): the same edit as u.disconnect(d), asked for at the other end
+DestroyFrom(d, u) == prog[d].kind # "sink" /\ Disconnect(u, d)
 
 \* the program forgets node n (del + gc.collect()); whatever is unreachable is collected
 DropRef(n) ==
@@ -106,7 +116,7 @@ TEmit == /\ calls < MaxEmits
          /\ UNCHANGED <<held, alive, pinned, edits, err>>
 
 TNext == TEmit
-         \/ \E u \in 1 .. Len(prog), d \in 1 .. Len(prog) : Connect(u, d) \/ Disconnect(u, d)
+         \/ \E u \in 1 .. Len(prog), d \in 1 .. Len(prog) : Connect(u, d) \/ Disconnect(u, d) \/ DestroyFrom(d, u)
          \/ \E n \in 1 .. Len(prog) : Destroy(n) \/ DropRef(n)
 TSpec == TInit /\ [][TNext]_tvars2
 
